@@ -119,7 +119,7 @@ def main():
     ck.do_build()
     rnd = random.Random(ck.seed + 6)
     quick = ck.tier == "quick"
-    cases = genrun.corpus_cases()
+    cases = genrun.corpus_cases() + genrun.order_terminal_cases()
     cases += genrun.gen_cases(rnd, 260 if quick else 6000)
     cases += negative_variants(rnd, cases, 60 if quick else 1500)
     outs = ck.driver.run([{"op": "WELLPOSED", "els": c.els} for c in cases])
@@ -135,6 +135,11 @@ def main():
         s = rec["summary"]
         ck.case((c.text, tuple(genrun.history(rec["log"]))), nontrivial=c.wp or c.cert,
                 sample={"text": c.text, "well_posed": c.wp, "residues": None if s is None else len(s["sizes"]), "error": None if rec["error"] is None else rec["error"].name})
+        if c.archetype == "orderterminal":
+            # closable by construction, whatever the analysis of the PARSED object says (a wrong parse must not hide a failing generation)
+            if rec["error"] is not None or s is None or s["opens"]:
+                ck.fail("well-posed-molecule-does-not-complete", {"text": c.text, "history": genrun.history(rec["log"])[:40]},
+                        f"a molecule that is closable as written: {('raises ' + rec['error'].name) if rec['error'] is not None else 'open descriptors are left'}")
         if not c.wp:
             ck.count("not-well-posed-run:" + ("error" if rec["error"] is not None else ("complete" if s is not None and not s["opens"] else "open-left")))
     # all choice sequences of bounded well-posed instances
